@@ -11,6 +11,7 @@ import (
 	"fmt"
 	"math"
 	"os"
+	"path/filepath"
 	"runtime/debug"
 	"strconv"
 	"strings"
@@ -202,9 +203,26 @@ func MaxInt64(a, b int64) int64 {
 func SetNow(sec int64)   { nowSec = sec }
 func NowTime() time.Time { return time.Unix(nowSec, 0) }
 
-// In-memory file hooks exist only under the engine.
+// In-memory file hooks exist only under the engine; natively files are real files under TempRoot.
 func OnFileWrite(f func(path string)) {}
-func PutFile(path, content string)     {}
+func PutFile(path, content string) {
+	os.MkdirAll(filepath.Dir(path), 0755)
+	os.WriteFile(path, []byte(content), 0644)
+}
+
+var tempRoot string
+
+// TempRoot is the directory harnesses put their files under ("/zzv" in the engine's in-memory file map).
+func TempRoot() string {
+	if tempRoot == "" {
+		d, err := os.MkdirTemp("", "zzv-root-")
+		if err != nil {
+			panic(err)
+		}
+		tempRoot = d
+	}
+	return tempRoot
+}
 func GetFile(path string) (string, bool) {
 	b, err := os.ReadFile(path)
 	return string(b), err == nil
